@@ -23,7 +23,7 @@ SPEC = {
         "idealisations: atomics and channel close are atomic; real interleavings are sampled, not enumerated; the two-CAS sequence to Active is one step",
     ],
     "assumptions": ["generated repositories use only genrule with srcs edges in up to three packages; each case starts from an empty plz-out and cache"],
-    "harness_timeout": 3000,
+    "harness_timeout": 6000,
 }
 
 MUTATIONS = """
